@@ -12,6 +12,7 @@ connection with fragmented replies.  Error replies are single lines since 94de19
 import SamVerif.Proofs.Session
 import SamVerif.Gen.Session
 import SamVerif.Proofs.Compose
+import SamVerif.Proofs.SessFlush
 namespace SamVerif.Props.C01
 open SamVerif.Session
 
@@ -136,30 +137,30 @@ example : ∃ w, wrun {} [.encode 7, .handoff, .encode 3, .encode 9] = none ∧
 theorem code_matches_model :
     Gen.Session.serve =
       ["writeDone := make(chan struct{})",
-       "go func() { s.loopWrite() s.conn.Close() s.doQuit() close(writeDone) }()",
-       "s.loopRead()",
-       "s.conn.Close()",
-       "s.doQuit()",
-       "<-writeDone",
-       "close(s.done)"] ∧
+      "go func() { s.loopWrite() s.conn.Close() s.doQuit() close(writeDone) }()",
+      "s.loopRead()",
+      "s.conn.Close()",
+      "s.doQuit()",
+      "<-writeDone",
+      "close(s.done)"] ∧
     Gen.Session.loopRead =
       ["for { v, err := s.dec.Decode() if err != nil { if err != io.EOF { s.p.logger.Warnf(\"loop read exit: %v\", err) } return } req := newRawRequest(v) s.p.handleRequest(req) select { case s.processingReqs <- req: case <-s.quit: return } }"] ∧
     Gen.Session.loopWrite =
       ["var ( req *rawRequest err error )",
-       "for { select { case <-s.quit: return case req = <-s.processingReqs: } select { case <-req.done: case <-s.quit: return } resp := req.Response() if err = s.enc.Encode(resp); err != nil { goto FAIL } if len(s.processingReqs) != 0 { continue } if err = s.enc.Flush(); err != nil { goto FAIL } }",
-       "FAIL: s.p.logger.Warnf(\"loop write exit: %v\", err)"] ∧
+      "for { select { case <-s.quit: return case req = <-s.processingReqs: } select { case <-req.done: default: if err = s.enc.Flush(); err != nil { goto FAIL } select { case <-req.done: case <-s.quit: return } } resp := req.Response() if err = s.enc.Encode(resp); err != nil { goto FAIL } if len(s.processingReqs) != 0 { continue } if err = s.enc.Flush(); err != nil { goto FAIL } }",
+      "FAIL: s.p.logger.Warnf(\"loop write exit: %v\", err)"] ∧
     Gen.Session.mgetSetResponse =
       ["v := make([]RespValue, len(r.children))",
-       "for i, child := range r.children { v[i] = *child.Response() }",
-       "r.raw.SetResponse(&RespValue{ Type: Array, Array: v, })"] ∧
+      "for i, child := range r.children { v[i] = *child.Response() }",
+      "r.raw.SetResponse(&RespValue{ Type: Array, Array: v, })"] ∧
     Gen.Session.sumSetResponse =
       ["total := int64(0)",
-       "errCount := 0",
-       "for _, child := range r.children { resp := child.Response() switch resp.Type { case Integer: total += resp.Int default: errCount++ } }",
-       "if errCount == 0 { r.raw.SetResponse(newInteger(total)) } else { r.raw.SetResponse(newError(fmt.Sprintf(\"finished with %d error(s)\", errCount))) }"] ∧
+      "errCount := 0",
+      "for _, child := range r.children { resp := child.Response() switch resp.Type { case Integer: total += resp.Int default: errCount++ } }",
+      "if errCount == 0 { r.raw.SetResponse(newInteger(total)) } else { r.raw.SetResponse(newError(fmt.Sprintf(\"finished with %d error(s)\", errCount))) }"] ∧
     Gen.Session.newError =
       ["if strings.ContainsAny(s, \"\\r\\n\") { s = strings.NewReplacer(\"\\r\", \" \", \"\\n\", \" \").Replace(s) }",
-       "return &RespValue{ Type: Error, Text: []byte(s), }"] ∧
+      "return &RespValue{ Type: Error, Text: []byte(s), }"] ∧
     Gen.Session.clientLoopRead =
       ["for { resp, err := c.dec.Decode() if err != nil { if err != io.EOF && !strings.Contains(err.Error(), \"use of closed network connection\") { c.logger.Warnf(\"loop read exit: %v\", err) } return } verifPause(\"client.read.pair\", c) var req *simpleRequest select { case req = <-c.processingReqs: case <-c.quit: return } c.handleResp(req, resp) }"] ∧
     Gen.Session.queueCap = 32 := by
@@ -221,6 +222,31 @@ example : ∃ s, Compose.run (Compose.init 32)
 
 end SamVerif.Props.C01
 
+namespace SamVerif.Props.C01f
+open SamVerif.SessFlush
+
+/-- **Nothing finished waits in the write buffer while the writer is blocked** (after F-01b): in every reachable state in
+which the writer waits — for a request to arrive, or for the answer to the request at the head of the queue — every reply
+encoded so far has been flushed to the client. -/
+theorem blocked_writer_has_flushed (ls : List Label) (s : W) (hr : run {} ls = some s) (hb : blocked s) : s.buf = [] := by
+  have h : Inv s := inv_run {} s ls (by refine ⟨rfl, ?_, ?_⟩ <;> simp) hr
+  rcases hb with ⟨h1, h2⟩ | ⟨id, h1, _⟩
+  · exact h.2.2 h1 h2
+  · exact h.2.1 id h1
+
+/-- the writer before 58f2ae2: two requests are queued, the first is answered, the second is not — the first reply sits in
+the buffer while the writer is blocked on the second -/
+theorem old_writer_blocks_with_a_reply_in_the_buffer :
+    ∃ s, run { old := true } [.enqueue 0, .enqueue 1, .complete 0, .take, .look, .encode, .take, .look] = some s ∧
+      blocked s ∧ s.buf = [0] ∧ s.sent = [] := by
+  refine ⟨_, rfl, Or.inr ⟨1, rfl, by decide⟩, rfl, rfl⟩
+
+/-- the same schedule now: the reply of request 0 is with the client -/
+example : ∃ s, run {} [.enqueue 0, .enqueue 1, .complete 0, .take, .look, .encode, .take, .look] = some s ∧
+      blocked s ∧ s.buf = [] ∧ s.sent = [0] := ⟨_, rfl, Or.inr ⟨1, rfl, by decide⟩, rfl, rfl⟩
+
+end SamVerif.Props.C01f
+
 #print axioms SamVerif.Props.C01.replies_in_request_order
 #print axioms SamVerif.Props.C01.at_most_one_reply
 #print axioms SamVerif.Props.C01.all_replied_at_rest
@@ -229,3 +255,5 @@ end SamVerif.Props.C01
 #print axioms SamVerif.Props.C01.other_connections_do_not_matter
 #print axioms SamVerif.Props.C01.composed_replies_in_request_order
 #print axioms SamVerif.Props.C01.kth_reply_is_result_of_kth_request
+#print axioms SamVerif.Props.C01f.blocked_writer_has_flushed
+#print axioms SamVerif.Props.C01f.old_writer_blocks_with_a_reply_in_the_buffer
